@@ -30,12 +30,12 @@ def run_unit(args):
         target = c.get("function", qualname)
         fn = reg.function_ast(target)
         if canary:
-            import pyvc.engine as E
-            E.Z3_TIMEOUT_MS, E.CVC5_TIMEOUT_S = 3000, 0        # a canary only has to FAIL to be proved
             c = dict(c)
             c["ensures"] = {"canary": "False"}
             c["raises"] = {}
         ex = Exec(qualname, fn, c, reg, split=split)
+        if canary:
+            ex.z3_timeout_ms, ex.cvc5_timeout_s, ex.retries = 3000, 0, 0        # a canary only has to FAIL to be proved
         res = ex.run()
         return {"unit": qualname, "split": split, "results": [r.as_dict() for r in res], "trusted": sorted(ex.trusted_used),
                 "called": sorted(getattr(ex, "called", [])), "wall": time.time() - t0, "error": None, "canary": canary}
